@@ -5,8 +5,10 @@
 // memory access inside library code is (a) checked by an ownership monitor and (b) a preemption point
 // of the seeded scheduler, so calls overlap *inside* each other. Oracles: ownership invariant on
 // every access; results and final memory equal to the sequential execution of the same programs.
+#include <locale.h>
 #include <signal.h>
 #include <sys/mman.h>
+#include <time.h>
 #include <unistd.h>
 #include <algorithm>
 #include <cstring>
@@ -159,6 +161,12 @@ static std::string gen(const std::string &prop, uint64_t base, uint64_t idx, boo
                 if (v.empty()) continue;
                 calllines.push_back(strf("call t=%d fn=get obj=%d fmt=%s f=%s via=%s", t, p.obj, f->name, fl->name, v[r.below(v.size())]));
             }
+        } else if (k < 65) {  // calls with invalid arguments (rejected without effect on the unchanged tree): null PDU, field id out of range, null result
+            P &p = pdus[t][r.below(pdus[t].size())];
+            static const char *subs[] = {"getfield_max", "setfield_max", "getfield_ff", "setfield_ff", "lget_max", "lset_max", "lget_nullval", "get_nullpdu", "set_nullpdu",
+                                         "init_nullpdu", "linit_nullpdu", "lget_nullpdu", "lset_nullpdu"};
+            calllines.push_back(strf("call t=%d fn=bad obj=%d fmt=%s f=%s via=%s v=0x%llx", t, p.obj, p.f->name, p.f->fields[r.below(p.f->nfields)].name, subs[r.below(13)],
+                                     (unsigned long long)r.next()));
         } else if (k < 74) {  // read-only call on the shared PDU
             if (shared_vss && r.coin()) {
                 int pdst = sh_am == 1 ? -1 : new_obj(t, sh_plen ? sh_plen : 1);
@@ -270,7 +278,7 @@ struct World {
     std::vector<std::vector<std::string>> result_fn;
     std::vector<uintptr_t> last_load;      // per task: address of its last load
     std::vector<bool> in_shared_call;
-    uint64_t pr_inside = 0, pr_rmw = 0, pr_shared = 0, pr_static_load = 0, pr_unknown_load = 0, loads = 0, stores = 0, calls = 0;
+    uint64_t pr_badargs = 0, pr_inside = 0, pr_rmw = 0, pr_shared = 0, pr_static_load = 0, pr_unknown_load = 0, loads = 0, stores = 0, calls = 0;
     sim::Digest digest;
     uint64_t events = 0;
     bool verbose = false;
@@ -427,6 +435,26 @@ void *__wrap_memmove(void *d, const void *s, size_t n) {
     }
     return __real_memmove(d, s, n);
 }
+// libc facilities with hidden static state: a call from library code is a breach of the property by itself
+#define UNSAFE_LIBC(ret, name, params, args)                                                                                   \
+    ret __real_##name params;                                                                                                  \
+    ret __wrap_##name params {                                                                                                 \
+        uintptr_t pc = (uintptr_t)__builtin_return_address(0);                                                                 \
+        if (lib_active() && sim::g_symtab.is_repo(pc))                                                                          \
+            violation(std::string("shared-state:libc-") + #name + ":" + sim::g_symtab.func(pc),                                \
+                      sim::g_symtab.func(pc) + "() calls " #name "(), which keeps hidden static state inside libc");          \
+        return __real_##name args;                                                                                             \
+    }
+UNSAFE_LIBC(char *, strtok, (char *s, const char *d), (s, d))
+UNSAFE_LIBC(int, rand, (void), ())
+UNSAFE_LIBC(void, srand, (unsigned s), (s))
+UNSAFE_LIBC(struct tm *, localtime, (const time_t *t), (t))
+UNSAFE_LIBC(struct tm *, gmtime, (const time_t *t), (t))
+UNSAFE_LIBC(char *, ctime, (const time_t *t), (t))
+UNSAFE_LIBC(char *, asctime, (const struct tm *t), (t))
+UNSAFE_LIBC(char *, strerror, (int e), (e))
+UNSAFE_LIBC(char *, setlocale, (int c, const char *l), (c, l))
+
 void *__wrap_memset(void *d, int c, size_t n) {
     uintptr_t pc = (uintptr_t)__builtin_return_address(0);
     if (lib_active() && sim::g_symtab.is_repo(pc) && n) {
@@ -525,6 +553,32 @@ static uint64_t do_call(const Call &c, bool &skipped) {
         else if (c.via == "ded") res = fl->get(o->p);
         else { uint64_t v = 0; f->legacy_get(o->p, fl->legacy_id >= 0 ? fl->legacy_id : fl->field_id, &v); res = v; }
         leave();
+        return res;
+    }
+    if (c.fn == "bad") {
+        const BindFormat *f = find_format(c.fmt);
+        const BindField *fl = f ? find_field(f, c.field) : nullptr;
+        if (!f || !fl || o->size < f->spec_bytes || o->shared) { skipped = true; return 0; }
+        int fmax = f->field_max, fid = fl->field_id;
+        const std::string &k = c.via;
+        uint64_t tmp = 0;
+        enter();
+        if (k == "getfield_max" && f->getfield && fmax >= 0) res = f->getfield(o->p, fmax);
+        else if (k == "setfield_max" && f->setfield && fmax >= 0) f->setfield(o->p, fmax, c.v);
+        else if (k == "getfield_ff" && f->getfield) res = f->getfield(o->p, 0xff);
+        else if (k == "setfield_ff" && f->setfield) f->setfield(o->p, 0xff, c.v);
+        else if (k == "lget_max" && f->legacy_get && fmax >= 0) res = (uint64_t)f->legacy_get(o->p, fmax, &tmp) ^ tmp;
+        else if (k == "lset_max" && f->legacy_set && fmax >= 0) res = (uint64_t)f->legacy_set(o->p, fmax, c.v);
+        else if (k == "lget_nullval" && f->legacy_get_raw && fid >= 0) res = (uint64_t)f->legacy_get_raw(o->p, fid, nullptr);
+        else if (k == "get_nullpdu" && f->getfield && fid >= 0) res = f->getfield(nullptr, fid) ^ (fl->get ? fl->get(nullptr) : 0);
+        else if (k == "set_nullpdu" && f->setfield && fid >= 0) { f->setfield(nullptr, fid, c.v); if (fl->set) fl->set(nullptr, c.v); }
+        else if (k == "init_nullpdu" && f->init) f->init(nullptr);
+        else if (k == "linit_nullpdu" && f->legacy_init) res = (uint64_t)f->legacy_init(nullptr);
+        else if (k == "lget_nullpdu" && f->legacy_get && fid >= 0) res = (uint64_t)f->legacy_get(nullptr, fid, &tmp) ^ tmp;
+        else if (k == "lset_nullpdu" && f->legacy_set && fid >= 0) res = (uint64_t)f->legacy_set(nullptr, fid, c.v);
+        else { leave(); skipped = true; return 0; }
+        leave();
+        w.pr_badargs++;
         return res;
     }
     Obj *o2 = obj(c.obj2), *o3 = obj(c.obj3);
@@ -779,6 +833,7 @@ static void exec(const std::string &text, bool verbose) {
     g_res.counters["probe.preempted_inside_call_on_shared_pdu"] = w.pr_shared;
     g_res.counters["probe.load_from_writable_static"] = w.pr_static_load;
     g_res.counters["probe.load_from_unknown_region"] = w.pr_unknown_load;
+    g_res.counters["probe.calls_with_invalid_arguments"] = w.pr_badargs;
     g_res.counters["scen." + saved_policy] = 1;
     sim::finish_run(g_res);
 }
@@ -837,7 +892,7 @@ int main(int argc, char **argv) {
              "in one arena, plus getters on one shared read-only PDU; executed once sequentially and once interleaved with preemption at instrumented edges/"
              "loads/stores of library code (policy stratified by run index: none, p=0.001..0.33, PCT, after-store); distinct = distinct event-log digest "
              "(includes every preemption decision); non-trivial = at least one preemption inside a library call with >= 2 tasks";
-    e.probes = {"probe.preempted_inside_library_call", "probe.preempted_between_load_and_store_of_one_quadlet", "probe.preempted_inside_call_on_shared_pdu"};
+    e.probes = {"probe.preempted_inside_library_call", "probe.preempted_between_load_and_store_of_one_quadlet", "probe.preempted_inside_call_on_shared_pdu", "probe.calls_with_invalid_arguments"};
     e.real_components = {"libopen1722 + libopen1722custom built from /repo/src at -O0 with sanitizer-coverage trace-pc-guard,trace-loads,trace-stores",
                          "call bindings generated from /repo/include; hand-written drivers for builders/VSS codec"};
     e.stub_components = {"caller threads (fibers under the seeded scheduler)", "memcpy/memset/memmove (wrapped: checked, then forwarded to libc)"};
